@@ -1029,7 +1029,9 @@ func ruleCycleCheckFirst(w *World, r *Report, rule string) {
 				continue
 			}
 			n++
-			r.Check(p.must.Before[nd].Has("ok:DetectCycles"), rule, fmt.Sprintf("%s#%s-after-cycle-check", d.Name(), name), c.Pos(), true,
+			// on the path where the cycle check has already failed a validation step can only add to
+			// the report (the cycle error stays the primary one)
+			r.Check(p.must.Before[nd].Has("ok:DetectCycles") || p.must.Before[nd].Has("failed:DetectCycles"), rule, fmt.Sprintf("%s#%s-after-cycle-check", d.Name(), name), c.Pos(), true,
 				"the validation step runs only after the cycle check has succeeded",
 				name+" runs before (or without) the cycle check having succeeded: a cyclic registration set that also trips this validation is reported as a lifetime conflict or a missing service, not as a circular dependency")
 		}
